@@ -810,8 +810,8 @@ Example tight_default : last_result 20 500 (tight_stream 20 500 9500) = Some tru
 Proof. vm_cast_no_check (eq_refl (Some true)). Qed.
 
 (* a validator peer 11, a citizen peer 12, this node 1, data protocol 0x0300 *)
-Definition ex_root : peer := {| pr_id := 11; pr_role := 2; pr_conn := 5; pr_protos := [768%Z] |}.
-Definition ex_citizen : peer := {| pr_id := 12; pr_role := 0; pr_conn := 2; pr_protos := [768%Z] |}.
+Definition ex_root : peer := {| pr_id := 11; pr_role := 2; pr_recv_role := 2; pr_conn := 5; pr_protos := [768%Z] |}.
+Definition ex_citizen : peer := {| pr_id := 12; pr_role := 0; pr_recv_role := 3; pr_conn := 2; pr_protos := [768%Z] |}.
 Definition ex_node : node := new_node 20 1 [768%Z].
 Definition ex_bcast (src h : Z) : pkt := {| k_proto := 768; k_src := src; k_dest := 0; k_ttl := 0; k_hash := h |}.
 Definition ex_onehop (src h : Z) : pkt := {| k_proto := 768; k_src := src; k_dest := 255; k_ttl := 1; k_hash := h |}.
@@ -835,3 +835,134 @@ Proof.
   assert (incl l [5%Z; 8%Z]) by (intros x Hx; apply I in Hx; cbn in *; tauto).
   replace 2%nat with (length [5%Z; 8%Z]) by reflexivity. now apply NoDup_incl_length.
 Qed.
+
+(* ------------------------------------------------------------------ *)
+(* atomicity of Put                                                    *)
+(* ------------------------------------------------------------------ *)
+
+Section Atomicity.
+  Variable NB : nat.
+  Variable LB : Z.
+  Hypothesis NB_pos : (1 <= NB)%nat.
+  Notation contains := (contains NB).
+  Notation put := (put NB LB).
+  Notation puts := (puts NB LB).
+  Notation put_insert := (put_insert NB LB).
+  Notation put_split := (put_split NB LB).
+
+  (* Put = the test followed, in the same step, by the insertion *)
+  Lemma put_check_then_insert p h :
+    put p h = match contains p h with
+              | None => None
+              | Some true => Some (p, false)
+              | Some false => match put_insert p h with Some q => Some (q, true) | None => None end
+              end.
+  Proof.
+    unfold Model_Flood.put, Model_Flood.put_insert.
+    destruct (contains p h) as [[|]|]; try reflexivity.
+    destruct (nth_error (pl_buckets p) (pl_cur p)) as [[m|]|]; try reflexivity.
+    destruct (nth_error (pl_len p) (pl_cur p)) as [l|]; try reflexivity.
+    cbv zeta. destruct (LB <=? l + 1)%Z; [|reflexivity].
+    destruct (nth_error _ _); [|reflexivity]. destruct (nth_error _ _); reflexivity.
+  Qed.
+
+  (* the insertion half alone neither fails nor breaks the ring invariant, whatever the hash *)
+  Lemma put_insert_total p h : Inv NB p -> exists q, put_insert p h = Some q.
+  Proof.
+    intro I. pose proof I as [Hlb Hll Hcur [k [Hk Hlive]]]. unfold bucket in *.
+    unfold Model_Flood.put_insert.
+    assert (L : live p (pl_cur p)).
+    { apply Hlive; auto. unfold dist. rewrite Nat.leb_refl. lia. }
+    destruct L as [m Em]. rewrite Em.
+    destruct (nth_error_in_range (pl_len p) (pl_cur p) ltac:(lia)) as [l El]. rewrite El.
+    cbv zeta. destruct (LB <=? l + 1)%Z; [|eauto].
+    assert (Hn : (next_idx NB (pl_cur p) < NB)%nat).
+    { unfold next_idx. destruct (Nat.leb_spec NB (S (pl_cur p))); lia. }
+    assert (X1 : (next_idx NB (pl_cur p) < length (set_nth (pl_cur p) (Some (h :: m)) (pl_buckets p)))%nat)
+      by (rewrite set_nth_length, Hlb; assumption).
+    assert (X2 : (next_idx NB (pl_cur p) < length (set_nth (pl_cur p) (l + 1)%Z (pl_len p)))%nat)
+      by (rewrite set_nth_length, Hll; assumption).
+    destruct (nth_error_in_range _ _ X1) as [x ->].
+    destruct (nth_error_in_range _ _ X2) as [y ->]. eauto.
+  Qed.
+
+  (* REFUTED variant: if the test and the insertion of Put can be scheduled separately, two
+     callers holding the same new hash are both told "new" — from every pool state in which
+     the hash is not present (and the second insertion does not even fail) *)
+  Lemma split_put_refuted p h : Inv NB p -> contains p h = Some false ->
+    exists p1 p2, put_insert p h = Some p1 /\ put_insert p1 h = Some p2 /\
+      put_split p h [] [SCheck 0; SCheck 1; SInsert 0; SInsert 1] = Some (p2, [0%nat; 1%nat]).
+  Proof.
+    intros I C.
+    destruct (put_insert_total p h I) as [p1 E1].
+    assert (I1 : Inv NB p1).
+    { apply (put_inv NB LB NB_pos p h p1 true I). rewrite put_check_then_insert, C, E1. reflexivity. }
+    destruct (put_insert_total p1 h I1) as [p2 E2].
+    exists p1, p2. repeat split; auto.
+    cbn [Model_Flood.put_split]. rewrite C. cbn [seen_lookup Nat.eqb]. rewrite E1. cbn [seen_lookup Nat.eqb].
+    rewrite E2. reflexivity.
+  Qed.
+
+  (* with atomic Puts the same hash offered n times in a row is new at most once *)
+  Lemma tracked_repeat n : forall p h c, tracked NB LB p h c -> (1 <= c)%Z ->
+    puts p (repeat h n) = Some (p, repeat false n).
+  Proof.
+    induction n as [|n IH]; intros p h c T Hc; cbn [repeat Model_Flood.puts]; [reflexivity|].
+    pose proof (tracked_contains NB LB NB_pos p h c T Hc) as C.
+    unfold Model_Flood.put. rewrite C. rewrite (IH p h c T Hc). reflexivity.
+  Qed.
+
+  Lemma count_true_repeat_false n : count_true (repeat false n) = O.
+  Proof. induction n; cbn; auto. Qed.
+
+  Lemma atomic_same_hash n : forall p h p' rs, Inv NB p -> (0 < Z.of_nat (NB - 1) * LB)%Z ->
+    puts p (repeat h n) = Some (p', rs) -> (count_true rs <= 1)%nat.
+  Proof.
+    induction n as [|n IH]; intros p h p' rs I W E; cbn [repeat Model_Flood.puts] in E.
+    - inversion E; subst. cbn. lia.
+    - destruct (put p h) as [[p1 r]|] eqn:E1; [|discriminate].
+      destruct (puts p1 (repeat h n)) as [[p2 rs']|] eqn:E2; [|discriminate].
+      inversion E; subst. cbn [count_true]. destruct r.
+      + pose proof (tracked_put_new NB LB NB_pos p h p1 I E1) as T.
+        pose proof (LBp_ge NB LB NB_pos) as [G1 G2].
+        rewrite (tracked_repeat n p1 h _ T) in E2 by nia.
+        inversion E2; subst. rewrite count_true_repeat_false. lia.
+      + apply put_old in E1. subst p1. specialize (IH _ _ _ _ I W E2). lia.
+  Qed.
+
+  (* a schedule in which every caller's test and insertion are adjacent is a sequence of Puts *)
+  Definition atomic_sched (cs : list nat) : list split_act :=
+    concat (map (fun c => [SCheck c; SInsert c]) cs).
+
+  Lemma put_split_atomic cs : forall p h seen p' ws,
+    put_split p h seen (atomic_sched cs) = Some (p', ws) ->
+    exists rs, puts p (repeat h (length cs)) = Some (p', rs) /\ length ws = count_true rs.
+  Proof.
+    induction cs as [|c cs IH]; intros p h seen p' ws E.
+    - cbn in E. inversion E; subst. exists []. auto.
+    - cbn [atomic_sched map concat app Model_Flood.put_split] in E. fold (atomic_sched cs) in E.
+      cbn [length repeat Model_Flood.puts]. rewrite put_check_then_insert.
+      destruct (contains p h) as [b|]; [|discriminate].
+      cbn [seen_lookup] in E. rewrite Nat.eqb_refl in E. destruct b.
+      + apply IH in E as [rs [Ep El]]. rewrite Ep. exists (false :: rs). auto.
+      + destruct (put_insert p h) as [p1|]; [|discriminate].
+        destruct (put_split p1 h _ (atomic_sched cs)) as [[p2 ws']|] eqn:E2; [|discriminate].
+        inversion E; subst. apply IH in E2 as [rs [Ep El]]. rewrite Ep. exists (true :: rs).
+        cbn. auto.
+  Qed.
+
+  Lemma atomic_put_one_winner cs p h seen p' ws : Inv NB p -> (0 < Z.of_nat (NB - 1) * LB)%Z ->
+    put_split p h seen (atomic_sched cs) = Some (p', ws) -> (length ws <= 1)%nat.
+  Proof.
+    intros I W E. apply put_split_atomic in E as [rs [Ep El]]. rewrite El.
+    eapply atomic_same_hash; eauto.
+  Qed.
+End Atomicity.
+
+(* the refutation is not vacuous: production shape, fresh pool *)
+Example ex_split_put_default :
+  option_map snd (put_split 20 500 (new_pool 20) 7 [] [SCheck 0; SCheck 1; SInsert 0; SInsert 1])
+  = Some [0%nat; 1%nat]
+  /\ option_map snd (put_split 20 500 (new_pool 20) 7 [] [SCheck 0; SInsert 0; SCheck 1; SInsert 1])
+  = Some [0%nat].
+Proof. split; vm_compute; reflexivity. Qed.
